@@ -249,6 +249,107 @@ theorem dt_sub_minute_counterexample (h : dumpRes = 60) : ¬ dt_standardise_add_
   rw [(dt_order_consistent _ _).2.2] at this
   simp [DtPoint.sub, DtPoint.add, trunc, h] at this
 
+/-! ## the lru_cached helpers across calendar switches (histories in one process) -/
+
+theorem cacheLook_mem {β : Type} {k : (String × String) × Option Nat}
+    {c : List (((String × String) × Option Nat) × β)} {v : β} (h : cacheLook k c = some v) : (k, v) ∈ c := by
+  induction c with
+  | nil => simp [cacheLook] at h
+  | cons e t ih =>
+    obtain ⟨k', v'⟩ := e
+    unfold cacheLook at h
+    by_cases hk : k' = k
+    · rw [if_pos hk] at h; injection h with h; subst h; subst hk; exact List.mem_cons_self ..
+    · rw [if_neg hk] at h; exact List.mem_cons_of_mem _ (ih h)
+
+theorem cacheKey_fst (k : Bool) (m : Nat) (a : String × String) : (cacheKey k m a).1 = a := rfl
+theorem cacheKey_snd (m : Nat) (a : String × String) : (cacheKey true m a).2 = some m := by simp [cacheKey]
+
+/-- every entry was stored under its calendar mode and holds the result for that mode -/
+def CacheInv {β : Type} (f : Nat → String × String → β) (c : List (((String × String) × Option Nat) × β)) : Prop :=
+  ∀ e ∈ c, ∃ m, e.1.2 = some m ∧ e.2 = f m e.1.1
+
+theorem cachedCall_keyed {β : Type} (cap : Nat) (f : Nat → String × String → β)
+    (c : List (((String × String) × Option Nat) × β)) (m : Nat) (a : String × String) (hi : CacheInv f c) :
+    (cachedCall true cap f c m a).2 = f m a ∧ CacheInv f (cachedCall true cap f c m a).1 := by
+  unfold cachedCall
+  by_cases hc : cap = 0
+  · rw [if_pos hc]; exact ⟨rfl, hi⟩
+  · rw [if_neg hc]
+    cases hl : cacheLook (cacheKey true m a) c with
+    | some v =>
+      simp only
+      obtain ⟨m', h1, h2⟩ := hi _ (cacheLook_mem hl)
+      have hv : v = f m a := by
+        rw [cacheKey_snd] at h1; injection h1 with h1; subst h1; rw [cacheKey_fst] at h2; exact h2
+      refine ⟨hv, ?_⟩
+      intro e he
+      rcases List.mem_append.1 he with h | h
+      · exact hi e (List.mem_filter.1 h).1
+      · have : e = (cacheKey true m a, v) := by simpa using h
+        subst this; exact ⟨m, cacheKey_snd m a, by rw [cacheKey_fst]; exact hv⟩
+    | none =>
+      simp only
+      refine ⟨trivial, ?_⟩
+      intro e he
+      have he' : e ∈ c ++ [(cacheKey true m a, f m a)] := by
+        split at he
+        · exact List.mem_of_mem_tail he
+        · exact he
+      rcases List.mem_append.1 he' with h | h
+      · exact hi e h
+      · have : e = (cacheKey true m a, f m a) := by simpa using h
+        subst this; exact ⟨m, cacheKey_snd m a, by rw [cacheKey_fst]⟩
+
+theorem cachedRun_keyed {β : Type} (cap : Nat) (f : Nat → String × String → β) :
+    ∀ (calls : List (Nat × (String × String))) (c : List (((String × String) × Option Nat) × β)),
+      CacheInv f c → cachedRun true cap f c calls = calls.map (fun x => f x.1 x.2) := by
+  intro calls
+  induction calls with
+  | nil => intro c _; rfl
+  | cons x rest ih =>
+    intro c hi
+    obtain ⟨m, a⟩ := x
+    obtain ⟨h1, h2⟩ := cachedCall_keyed cap f c m a hi
+    simp only [cachedRun, List.map_cons, h1, ih _ h2]
+
+/-- The full-strength statement: whatever calendar switches one process goes through, every call of
+the four cached helpers (`_iso_point_add`, `_iso_point_sub_interval`, `_iso_point_sub_point`,
+`_iso_point_cmp`) returns what the computation gives under the calendar in force, i.e. what a
+process that only ever made this one call would get. -/
+def dt_cache_transparent_full : Prop :=
+  ∀ (β : Type) (cap : Nat) (f : Nat → String × String → β) (calls : List (Nat × (String × String))),
+    cachedRun addKeyedByCalendar cap f [] calls = calls.map (fun x => f x.1 x.2) ∧
+    cachedRun subKeyedByCalendar cap f [] calls = calls.map (fun x => f x.1 x.2) ∧
+    cachedRun diffKeyedByCalendar cap f [] calls = calls.map (fun x => f x.1 x.2) ∧
+    cachedRun cmpKeyedByCalendar cap f [] calls = calls.map (fun x => f x.1 x.2)
+
+/-- **dt_cache_transparent.** With the calendar mode in every cache key (the flags are probed from
+the live code on every run) the caches are transparent across calendar switches: any history of
+calls under any sequence of calendars, any cache size (evictions and hits included), any cached
+computation. -/
+theorem dt_cache_transparent
+    (h : addKeyedByCalendar = true ∧ subKeyedByCalendar = true ∧ diffKeyedByCalendar = true ∧
+      cmpKeyedByCalendar = true) : dt_cache_transparent_full := by
+  intro β cap f calls
+  obtain ⟨h1, h2, h3, h4⟩ := h
+  rw [h1, h2, h3, h4]
+  have := cachedRun_keyed cap f calls [] (by intro e he; cases he)
+  exact ⟨this, this, this, this⟩
+
+/-- When a helper is cached by its two strings only, a result computed under one calendar is served
+under the next: the same call under calendars 0 and 1 returns the first result twice. -/
+theorem dt_cache_counterexample
+    (h : addKeyedByCalendar = false ∨ subKeyedByCalendar = false ∨ diffKeyedByCalendar = false ∨
+      cmpKeyedByCalendar = false) : ¬ dt_cache_transparent_full := by
+  intro hall
+  obtain ⟨h1, h2, h3, h4⟩ := hall Nat 10 (fun m _ => m) [(0, ("20000301T0000Z", "P1D")), (1, ("20000301T0000Z", "P1D"))]
+  rcases h with h | h | h | h
+  · rw [h] at h1; revert h1; decide
+  · rw [h] at h2; revert h2; decide
+  · rw [h] at h3; revert h3; decide
+  · rw [h] at h4; revert h4; decide
+
 /-! ## non-vacuity -/
 
 /-- `"+007"`, `"7"`, `"-0"`, `"0"`: equal, differently spelled -/
@@ -271,5 +372,15 @@ example : DtPoint.eq ⟨3600, 2⟩ ⟨3600, 0⟩ = true ∧ DtPoint.standardise 
 with the default 60 s so are 3600 and an interval of six hours) -/
 example : (0 : Int) % dumpRes = 0 := by simp
 example (h : dumpRes = 60) : (3600 : Int) % dumpRes = 0 ∧ (21600 : Int) % dumpRes = 0 := by simp [h]
+
+/-- a history with calendar switches, a hit, a miss and an eviction (cap = 1): every answer is the one
+of the calendar in force -/
+example : cachedRun true 1 (fun m a => (m, a.1)) []
+    [(0, ("a", "P1D")), (1, ("a", "P1D")), (0, ("a", "P1D")), (0, ("b", "P1D")), (0, ("b", "P1D"))]
+    = [(0, "a"), (1, "a"), (0, "a"), (0, "b"), (0, "b")] := by decide
+
+/-- and the same history with keys that lack the calendar serves a stale answer -/
+example : cachedRun false 10 (fun m a => (m, a.1)) [] [(0, ("a", "P1D")), (1, ("a", "P1D"))]
+    = [(0, "a"), (0, "a")] := by decide
 
 end CylcModel.C18
